@@ -28,6 +28,46 @@ def _pairs(d, what):
     return out
 
 
+_QOPS = {ast.Sub: "Qminus", ast.Add: "Qplus", ast.Mult: "Qmult", ast.Div: "Qdiv", ast.Mod: "Qmod_std", ast.FloorDiv: "Qfloordiv"}
+
+
+def _qexpr(e, args):
+    """A Python arithmetic expression over the function's arguments, as a term over Q (the model's standard operators)."""
+    if isinstance(e, ast.Name) and e.id in args:
+        return e.id
+    if isinstance(e, ast.BinOp) and type(e.op) in _QOPS:
+        return f"({_QOPS[type(e.op)]} {_qexpr(e.left, args)} {_qexpr(e.right, args)})"
+    raise Untranslatable(f"operator helper: expression {ast.unparse(e)}")
+
+
+def _operator_helpers(tree, binary):
+    """Module-level functions named in _BINARY_OP_MAP (not operator.xxx): `if <exact rational operands, rhs != 0>:
+    return <arithmetic>` followed by `return operator.<op>(lhs, rhs)`.  The arithmetic branch is translated; the guard and
+    the fallback are checked to have exactly this shape."""
+    out = []
+    for node_name, v in binary:
+        if v.startswith("operator."):
+            continue
+        fn = next((n for n in tree.body if isinstance(n, ast.FunctionDef) and n.name == v), None)
+        if fn is None:
+            raise Untranslatable(f"_BINARY_OP_MAP value {v} is neither operator.xxx nor a module-level function")
+        args = [a.arg for a in fn.args.args]
+        body = [n for n in fn.body if not (isinstance(n, ast.Expr) and isinstance(n.value, ast.Constant))]   # docstring
+        if len(args) != 2 or len(body) != 2 or not isinstance(body[0], ast.If) or body[0].orelse or len(body[0].body) != 1 \
+                or not isinstance(body[0].body[0], ast.Return) or not isinstance(body[1], ast.Return):
+            raise Untranslatable(f"operator helper {v}: shape")
+        a, b = args
+        guard = ast.unparse(body[0].test)
+        want = f"getattr({a}, 'is_Rational', False) and getattr({b}, 'is_Rational', False) and ({b} != 0)"
+        if guard not in (want, want.replace(f"({b} != 0)", f"{b} != 0")):
+            raise Untranslatable(f"operator helper {v}: guard {guard}")
+        fb = ast.unparse(body[1].value)
+        if not (fb.startswith("operator.") and fb.endswith(f"({a}, {b})")):
+            raise Untranslatable(f"operator helper {v}: fallback {fb}")
+        out.append((v, fb[:-len(f"({a}, {b})")], f"Definition gen_helper{v} ({a} {b} : Q) : Q := {_qexpr(body[0].body[0].value, args)}.\n"))
+    return out
+
+
 def _table(name, pairs):
     return (f"Definition {name} : list (string * string) :=\n  ["
             + "; ".join(f"({coq_string(k)}, {coq_string(v)})" for k, v in pairs) + "].\n")
@@ -38,6 +78,7 @@ def generate(repo):
     i = ast.parse(open(os.path.join(repo, "src/bartiq/symbolics/sympy_interpreter.py")).read())
     s = ast.parse(open(os.path.join(repo, "src/bartiq/symbolics/sympy_serializer.py")).read())
     binary = _pairs(_assign(p, "_BINARY_OP_MAP"), "_BINARY_OP_MAP")
+    helpers = _operator_helpers(p, binary)
     unary = _pairs(_assign(p, "_UNARY_OP_MAP"), "_UNARY_OP_MAP")
     restricted = _pairs(_assign(p, "_RESTRICTED_NAMES"), "_RESTRICTED_NAMES")
     stages = _assign(p, "_PREPROCESSING_STAGES")
@@ -71,8 +112,11 @@ def generate(repo):
         raise Untranslatable("Call conversion changed")
     printer = [n.name for n in ast.walk(s) if isinstance(n, ast.FunctionDef) and n.name.startswith("_print")]
     pow_template = "f'{base_str} ^ {exp_str}'" in ast.unparse(s)
-    out = ["(* GENERATED by translator/gen_parser.py — do not edit *)", "From Coq Require Import List String Bool.",
-           "Import ListNotations.", "Open Scope string_scope.", "",
+    out = ["(* GENERATED by translator/gen_parser.py — do not edit *)", "From Coq Require Import List String Bool QArith.",
+           "From Bq Require Import StdSem.", "Import ListNotations.", "Open Scope string_scope.", "",
+           "(* operator helpers of ast_parser.py: on exact rational operands with a non-zero divisor the helper computes the"
+           "\n   translated arithmetic, otherwise it falls back to the named Python operator *)",
+           *[h[2] for h in helpers], _table("gen_operator_helper_fallbacks", [(h[0], h[1]) for h in helpers]),
            _table("gen_binary_op_map", binary), _table("gen_unary_op_map", unary), _table("gen_restricted_names", restricted),
            f"Definition gen_parser_stages : list string := [{'; '.join(coq_string(x) for x in stage_names)}].\n",
            _table("gen_parser_patterns", patterns), _table("gen_parser_replacements", sorted(repl.items())),
